@@ -941,7 +941,7 @@ class Extractor:
             names = [x.arg for x in a.posonlyargs + a.args]
             args = [("p", s.name, k, n) for k, n in enumerate(names)]
             call = ("call", ("lam", cid), tuple(args), ())
-            self.inline_closure(self.closures[cid], args, {}, s, call, True)
+            self.inline_closure(self.closures[cid], args, {}, s, call, True, force=True)
 
     st_AsyncFunctionDef = st_FunctionDef
 
@@ -1512,8 +1512,8 @@ class Extractor:
             return True
         return False
 
-    def inline_closure(self, clo: Closure, args, kwargs, node, callterm, stmt_level) -> Term:
-        if len(self.inline_stack) >= self.inline_depth or clo.node in self.inline_stack or _is_recursive(clo.node):
+    def inline_closure(self, clo: Closure, args, kwargs, node, callterm, stmt_level, force: bool = False) -> Term:
+        if len(self.inline_stack) >= self.inline_depth or clo.node in self.inline_stack or (_is_recursive(clo.node) and not force):
             callterm = ("call", ("n", clo.name), callterm[2], callterm[3])
             if stmt_level:
                 self.emit(Effect, node, call=callterm)
